@@ -390,7 +390,8 @@ def exec_and_validate(run, gen, st):
         run.events += n
         run.validated_traces += stats.get('cases', 0)
         for m in mism:
-            run.mismatches.append({'cases': cases, 'trace': trace, 'm': m, 'trace_module': tm, 'props': props, 'race': st.get('race', False)})
+            run.mismatches.append({'cases': cases, 'trace': trace, 'm': m, 'trace_module': tm, 'props': props, 'race': st.get('race', False),
+                                   'replay_prefix': st.get('replay_prefix', False)})
         collect_samples(run, trace)
     log('[exec %s] %d cases, %d requests executed, %d events validated, %d mismatches so far'
         % (gen['name'], run.cases, run.exec, run.events, len(run.mismatches)))
@@ -457,13 +458,27 @@ def event_at(trace, line_no):
     return None
 
 
+def cases_before(cases, cid):
+    out = []
+    with open(cases) as f:
+        for line in f:
+            if line.startswith('{"pool"'):
+                continue
+            c = json.loads(line)
+            if c.get('id') == cid:
+                break
+            out.append(c)
+    return out
+
+
 def replay_file(run, cand, outdir):
     m = cand['m']
     pool, case = case_of_line(cand['trace'], cand['cases'], m['line'])
     if case is None:
         return None
     ev = event_at(cand['trace'], m['line'])
-    doc = {'property': m['id'], 'trace_module': cand['trace_module'], 'race': cand.get('race', False), 'pool': pool, 'case': case, 'event': ev, 'mismatch': m,
+    prefix = cases_before(cand['cases'], case.get('id')) if cand.get('replay_prefix') else []
+    doc = {'property': m['id'], 'trace_module': cand['trace_module'], 'race': cand.get('race', False), 'pool': pool, 'prefix_cases': prefix, 'case': case, 'event': ev, 'mismatch': m,
            'how': 'verifctl replay <this file>: the case is re-executed on the current /repo build and the trace re-validated by TLC'}
     body = json.dumps(doc, indent=1, sort_keys=True)
     sha = hashlib.sha1(json.dumps([case, ev], sort_keys=True).encode()).hexdigest()[:16]
@@ -491,6 +506,8 @@ def do_replay(run, path):
     with open(cases, 'w') as f:
         if doc.get('pool'):
             f.write(json.dumps(doc['pool']) + '\n')
+        for c in doc.get('prefix_cases', []):       # process-wide state (context pool): the cases the same process ran before
+            f.write(json.dumps(c) + '\n')
         f.write(json.dumps(doc['case']) + '\n')
     binp = build_harness(run, race=doc.get('race', False))
     trace = os.path.join(wd, 'trace-00.ndjson')
@@ -598,7 +615,9 @@ def run_check(prop, tier, seed):
         violations, known_hits, unrepro = [], [], 0
         outdir = os.path.join(ROOT, 'replays') if not os.environ.get('VERIF_NOEVIDENCE') else os.path.join(tempfile.gettempdir(), 'verif-replays')
         # confirm a handful of distinct candidates (each costs a re-execution + one TLC run), in parallel
-        todo = list(cands.items())[:16]
+        allc = list(cands.items())
+        step = max(1, len(allc) // 48)
+        allc = allc[::step][:48]                 # spread over the whole run, not only its first lines
 
         def confirm(item):
             key, c = item
@@ -611,18 +630,22 @@ def run_check(prop, tier, seed):
                 return ('unrepro', c, f)
             return ('confirmed', c, f)
 
-        if todo:
+        if allc:
             build_harness(run)
-        with cf.ThreadPoolExecutor(max_workers=8) as ex:
-            for status, c, f in ex.map(confirm, todo):
-                if status == 'unrepro':
-                    unrepro += 1
-                    log('candidate not reproduced by replay (dropped): ' + json.dumps(c['m'])[:300])
-                elif f is not None:
-                    known_hits.append(f['what'])
-                else:
-                    final = replay_file(run, c, outdir)
-                    violations.append((c['m'], final))
+        for b in range(0, len(allc), 16):
+            todo = allc[b:b + 16]
+            with cf.ThreadPoolExecutor(max_workers=8) as ex:
+                for status, c, f in ex.map(confirm, todo):
+                    if status == 'unrepro':
+                        unrepro += 1
+                        log('candidate not reproduced by replay (dropped): ' + json.dumps(c['m'])[:300])
+                    elif f is not None:
+                        known_hits.append(f['what'])
+                    else:
+                        final = replay_file(run, c, outdir)
+                        violations.append((c['m'], final))
+            if violations:
+                break
         for w in sorted(set(known_hits)):
             print('KNOWN-FINDING: property=%s %s' % (prop, w))
         write_evidence(run, len(violations), sorted(set(known_hits)), plan['rule'], plan['assumptions'],
@@ -632,7 +655,7 @@ def run_check(prop, tier, seed):
                 print('VIOLATION property=%s replay=%s' % (prop, p))
                 log('  ' + json.dumps(m)[:600])
             return 1
-        if unrepro and not violations:
+        if unrepro and not violations and not known_hits:
             log('%d candidate disagreement(s) could not be reproduced by replay: infrastructure problem' % unrepro)
             return 2
         print('OK property=%s tier=%s seed=%d states=%d traces=%d events=%d wall=%.0fs'
